@@ -7,6 +7,7 @@ A  accept direction + tree shape: each sentence through the real tokenize + pars
    (identifier names distinct, every subset of them tried as initial context, so scoping cannot mask acceptance)."""
 import json, os
 import vf, grammar
+from checks import pegcommon
 
 ALLKINDS = {"var", "lit", "type", "app", "bin", "neg", "lam", "pi", "ndpi", "if", "let"}
 
@@ -94,6 +95,8 @@ def run(c):
                 c.violate("token string that is not a sentence of grammar.y is accepted: " + text, {"kind": "member", "what": "over-acceptance", "text": text})
             elif not t["accepted"] and t["id"] in members:
                 c.violate("sentence of grammar.y rejected: " + text, {"kind": "member", "what": "over-rejection", "text": text})
+    # ---- the packrat parser function by function: specification = grammar.y (TLC), real memo table = specification (trace)
+    pegcommon.run(c, "C07", 600 if c.quick else 6000)
     # probe: corrupt a prescribed tree
     rec = vf.first_tag(st["out"], "SENT", 1, skip=1000)[0]
     rec["ast"] = {"k": "app", "a": rec["ast"], "b": {"k": "type"}}
